@@ -383,6 +383,18 @@ func (m *Model) RunTruthUsers(s *Sink, rule string) {
 	} {
 		fn := m.Method("evaluator", "Evaluator", st.fn)
 		key := fmt.Sprintf("evaluator.(*Evaluator).%s|condition decided by isTruthy only", st.fn)
+		// @breakIf / @continueIf: decided by case evaluation over the rows of the truthiness table (rule_ifcases.go);
+		// the structural reading below decides when the cases cannot be evaluated
+		if ct := map[string][2]string{"evalBreakIfStmt": {"BreakIfStmt", "Break"}, "evalContinueIfStmt": {"ContinueIfStmt", "Continue"}}[st.fn]; ct[0] != "" {
+			if bad, decided, _ := m.controlIfCases(ct[0], ct[1]); decided {
+				if bad == "" {
+					s.OK(rule, key, "-", "case evaluation of Eval on an abstract %s: the marker exactly for truthy conditions (13 condition values, none a singleton), the nil object for falsy ones, the error for a failing one", ct[0])
+				} else {
+					s.Violation(rule, key, "-", "@%s: %s — its condition is not decided by the truthiness table of C02", strings.ToLower(ct[1])+"If", bad)
+				}
+				continue
+			}
+		}
 		if fn == nil {
 			s.Undecided(rule, key, "-", "%s not found (anchor of C02/C03)", st.fn)
 			continue
